@@ -2,11 +2,16 @@
     f64 build, bit for bit.  A case is (21 floats, answer):
     corner a, corner b, ray origin, ray direction, the caller's inv_dir = 1/d, and the six
     coordinates (min, max) of the box the crate built.  Path tag = which [return] of
-    [intersect] fired (1..7). *)
-From G3 Require Import Run.Harness Model.Vec Model.BBox.
+    [intersect] fired (1..7).
+    The runner text is written once, in a section over the number instance [NK : Num float]: module [C14] instantiates it on
+    [NumF] (the f64 build), module [C14f32] on [NumF32fast] (= [NumF32], Run/FastNum32Proof.v) for the build with
+    `--features float`; no libm on this path: bit for bit in both builds. *)
+From G3 Require Import Run.Harness Run.FastNum32 Model.Vec Model.BBox.
 Local Open Scope num_scope.
 
 Definition K := float.
+Section WithInstance.
+Context {NK : Num float}.
 Definition fl (l : list spec_float) (i : nat) : K := SF2Prim (nthsf l i).
 Definition v_of (l : list spec_float) (o : nat) : V3 K := mkV3 (fl l o) (fl l (o+1)) (fl l (o+2)).
 Definition same (a : K) (s : spec_float) : bool := sf_eqb (Prim2SF a) s.
@@ -24,6 +29,12 @@ Definition chk (c : list spec_float * bool) : N :=
   let '(ans, tag) := bbox_intersect_tag b r inv in
   if Bool.eqb ans e && inv_ok && box_ok then tag else 0%N.
 
+End WithInstance.
+
 Module C14.
-  Definition run := run_cases chk.
+  Definition run := run_cases (@chk NumF).
 End C14.
+(** the f32 build: the same runner on the binary32 instance *)
+Module C14f32.
+  Definition run := run_cases (@chk NumF32fast).
+End C14f32.
